@@ -49,6 +49,7 @@ def cumsumAxis (o : Ops α) (table : CumsumTable) (g : GridM α) (origDims : Lis
   let (trim, lo, hi) ← match alookup (f, t) table with
     | some e => pure e | none => throw Err.value
   let fillv := fillInForceCall ax fill
+  if ¬ boundaryWordsOk g boundary then throw Err.value
   let rule ← if lo = 0 ∧ hi = 0 then pure Rule.periodic else
     match ruleInForceCall ax boundary with | some r => pure r | none => throw Err.key
   let dnew ← match alookup t ax.coords with | some d => pure d | none => throw Err.key
